@@ -433,7 +433,10 @@ class MP4Tags(DictProxy, Tags):
         try:
             path = atoms.path(b"moov", b"udta")
         except KeyError:
-            path = atoms.path(b"moov")
+            try:
+                path = atoms.path(b"moov")
+            except KeyError as e:
+                raise MP4MetadataError(e)
 
         offset = path[-1]._dataoffset
 
